@@ -65,6 +65,8 @@ TARGETS = [
     ("own_late", [("hit", 0, 0, 0, "", 0), ("hit", 200, 1, W, "", 40)], []),
     ("own_event", [("hit", 0, 0, 0, "", 0), ("hit", 0, 1, 0, "", 0)], [(0, "e.wav", 50)]),
     ("empty_holds", [("hit", 0, 0, 0, "", 0), ("hit", 100, 0, 0, "", 0)], []),
+    ("zero_length_hold", [("hold0", 0, 0, 0, "", 0), ("hit", 0, 1, 0, "", 0), ("hold0", 100, 2, 0, "", 0)], []),
+    ("reversed_rows", [("hit", 200, 0, 0, "", 0), ("hit", 100, 1, 0, "", 0), ("hold", 100, 2, 0, "", 0), ("hit", 0, 3, 0, "", 0), ("hold", 0, 0, 0, "", 0)], []),
 ]
 
 
@@ -105,7 +107,7 @@ def mk(notes, events=()):
     m = OsuMap()
     m.bpms = OsuBpmList([OsuBpm(0, 120)])
     m.hits = OsuHitList([OsuHit(t, c, hitsound_set=hs, hitsound_file=f, volume=v) for (k, t, c, hs, f, v) in notes if k == "hit"])
-    m.holds = OsuHoldList([OsuHold(t, c, 50, hitsound_set=hs, hitsound_file=f, volume=v) for (k, t, c, hs, f, v) in notes if k == "hold"])
+    m.holds = OsuHoldList([OsuHold(t, c, 50 if k == "hold" else 0, hitsound_set=hs, hitsound_file=f, volume=v) for (k, t, c, hs, f, v) in notes if k in ("hold", "hold0")])
     if events:
         m.samples = OsuSampleList([OsuSample(offset=t, sample_file=f, volume=v) for t, f, v in events])
     return m
